@@ -215,6 +215,113 @@ def judge(g, n, meta, rs, streams):
     return nexec, pulls, bad
 
 
+# ---------------------------------------------------------------- grids of mixed-type two-slot stacks
+GRID_POOL = ["1", "2", '"a"', '"b"', "[1]", "[]"]
+GRID_CANON = {"1": "c:dec:1@0", "2": "c:dec:2@0", '"a"': "s:x61@0", '"b"': "s:x62@0", "[1]": "[c:dec:1@0]@0", "[]": "[]@0"}
+GRID_BODIES = {
+    "step-either": ("(|A B| (A %(next)s B, A B %(next)s))", lambda a, b, nx: [(nx(a), b), (a, nx(b))]),
+    "rotate": ("(|A B| B A %(next)s)", lambda a, b, nx: [(b, nx(a))]),
+    "both-or-swap": ("(|A B| (A %(next)s B %(next)s, B A))", lambda a, b, nx: [(nx(a), nx(b)), (b, a)]),
+}
+
+
+def grid_cases(kmax, pool):
+    for k in range(2, kmax + 1):
+        for ring in itertools.permutations(pool, k):
+            if ring[0] != min(ring, key=pool.index):
+                continue        # rotations of a ring are the same ring
+            for bn in GRID_BODIES:
+                yield ring, bn
+
+
+def grid_query(ring, bn, form):
+    nxt = "(|X| (" + ", ".join("(X == %s) %s" % (ring[i], ring[(i + 1) % len(ring)]) for i in range(len(ring))) + "))"
+    return (form % (GRID_BODIES[bn][0] % {"next": nxt}))
+
+
+def _grid_worker(d, chunk, extra):
+    out = {"closures": 0, "exec": 0, "pulls": 0, "bad": [], "sizes": {}}
+    for ring, bn in chunk:
+        k = len(ring)
+        nx = lambda v: ring[(ring.index(v) + 1) % k]
+        fn = GRID_BODIES[bn][1]
+        starts = [(a, b) for a in ring for b in ring]
+        prefix = "(" + ", ".join(ring) + ") (" + ", ".join(ring) + ")"
+        cmds = [drv.run_cmd(grid_query(ring, bn, f), p=prefix, lim=k * k + 2) for f in ("%s*", "%s+")]
+        rs = d.batch(cmds)
+        out["closures"] += 1
+        for form, r in zip(("*", "+"), rs):
+            key = "grid:%s|%s|%s" % (",".join(ring), bn, form)
+            case = {"ring": list(ring), "body": bn, "kind": "grid" + form}
+            if r.crash:
+                out["bad"].append((key, "closure over the ring %s (%s)%s died: %s %s" % (list(ring), bn, form, r.crash[0], r.crash[1][-300:]), case))
+                continue
+            gs = groups(r)
+            if len(gs) != len(starts):
+                out["bad"].append((key, "ring %s (%s)%s: prefix gave %d start stacks, expected %d" % (list(ring), bn, form, len(gs), len(starts)), case))
+                continue
+            for grp in gs:
+                out["exec"] += 1
+                out["pulls"] += len(grp["res"]) + 1
+                a, b = [x for x in ring if GRID_CANON[x] == grp["in"].split(" ")[0]][0], [x for x in ring if GRID_CANON[x] == grp["in"].split(" ")[1]][0]
+                seen, work = ([(a, b)], [(a, b)]) if form == "*" else ([], [])
+                if form == "+":
+                    for y in fn(a, b, nx):
+                        if y not in seen:
+                            seen.append(y)
+                            work.append(y)
+                while work:
+                    x = work.pop()
+                    for y in fn(x[0], x[1], nx):
+                        if y not in seen:
+                            seen.append(y)
+                            work.append(y)
+                exp = sorted("%s %s" % (GRID_CANON[x], GRID_CANON[y]) for x, y in seen)
+                got = sorted(zwmodel.wild(x) for x in grp["res"])
+                out["sizes"][len(exp)] = out["sizes"].get(len(exp), 0) + 1
+                if grp["odd"] or got != sorted(zwmodel.wild(x) for x in exp):
+                    out["bad"].append((key, "closure `%s` from <%s %s>: yields %d stacks %r%s, the reachable stacks are the %d stacks %r, each once" % (
+                        grid_query(ring, bn, "%s" + form), a, b, len(got), got[:6], " and does not stop (%r)" % grp["odd"] if grp["odd"] else "", len(exp), exp[:6]), case))
+                    break
+    out["bad"] = out["bad"][:6]
+    return out
+
+
+# ---------------------------------------------------------------- a value of every type riding below the node
+PASSENGERS = ['7', '"s"', '[1, "a"]', '{1}', '1 (|A| {A})', '"x" (|A| {A A})', '[{1}]', '2 (|A| [{A}, 3])', '1 (|A| 2 (|B| {A B add}))']
+
+
+def _passenger_worker(d, chunk, extra):
+    """The N=2 graph closures with another value below the node: stacks that differ only in being copies of each other are one stack."""
+    out = {"closures": 0, "exec": 0, "pulls": 0, "bad": []}
+    for g in chunk:
+        cmds, meta = [], []
+        for pi, pv in enumerate(PASSENGERS):
+            for start in range(2):
+                for form, kind in (("%s*", "star"), ("%s+", "plus"), ("()*", "id"), ("(dup drop)*", "id"), ("(swap swap)+", "id")):
+                    q = "%s %d %s" % (pv, start, form % body(g) if "%s" in form else form)
+                    cmds.append(drv.run_cmd(q + " (|P N| N)", lim=6))
+                    meta.append((pv, start, form, kind, q))
+        rs = d.batch(cmds)
+        out["closures"] += 1
+        for (pv, start, form, kind, q), r in zip(meta, rs):
+            case = {"passenger_graph": [list(a) for a in g], "kind": "passenger"}
+            key = "passenger:%r|%s" % (g, q)
+            if r.crash:
+                out["bad"].append((key, "`%s` died: %s %s" % (q, r.crash[0], r.crash[1][-300:]), case))
+                continue
+            exp = sorted(reach(g, [start]) if kind == "star" else (reach(g, list(g[start])) if kind == "plus" else [start]))
+            out["exec"] += 1
+            out["pulls"] += len(r.results()) + 1
+            odd = [l for l in r.lines if not l.startswith("r ")]
+            got = sorted(node_of(x) for x in r.results()) if not odd else None
+            if odd or got != exp:
+                out["bad"].append((key, "`%s` (the node with the value `%s` below it): yields nodes %r%s, the distinct reachable stacks are %r" % (
+                    q, pv, got if got is not None else [x for x in r.lines[:6]], " and does not stop" if "t" in odd else "", exp), case))
+    out["bad"] = out["bad"][:6]
+    return out
+
+
 def _worker(d, task, extra):
     n, maxlen, k, m = task
     out = {"graphs": 0, "exec": 0, "pulls": 0, "bad": [], "sizes": {}, "sample": None}
@@ -246,6 +353,12 @@ def replay(case):
     ctx = common.Ctx("C10", "quick")
     d = drv.Drv(ctx.bin("zwdrv"), "core")
     try:
+        if "passenger_graph" in case:
+            r = _passenger_worker(d, [tuple(tuple(a) for a in case["passenger_graph"])], None)
+            return bool(r["bad"])
+        if "ring" in case:
+            r = _grid_worker(d, [(tuple(case["ring"]), case["body"])], None)
+            return any(b[2]["kind"] == case["kind"] for b in r["bad"])
         g = tuple(tuple(a) for a in case["g"])
         cmds, meta = cmds_for(g, case["n"], STREAMS)
         _, _, bad = judge(g, case["n"], meta, d.batch(cmds), STREAMS)
@@ -278,6 +391,22 @@ def main(ctx):
                 ctx.sample(r["sample"])
             for key, what, case in r["bad"]:
                 ctx.violation(key, what, case)
+    kmax, pool = (5, GRID_POOL) if ctx.tier == "thorough" else (4, GRID_POOL[:5])
+    gsizes = {}
+    for r in common.pmap(ctx, _grid_worker, common.chunks(grid_cases(kmax, pool), 8), bins["zwdrv"], "core", timeout=60):
+        ctx.count("grid_closures", r["closures"])
+        ctx.count("executions", r["exec"])
+        ctx.count("pulls", r["pulls"])
+        for k, v in r["sizes"].items():
+            gsizes[k] = gsizes.get(k, 0) + v
+        for key, what, case in r["bad"]:
+            ctx.violation(key, what, case)
+    for r in common.pmap(ctx, _passenger_worker, common.chunks(graphs(2, 2), 3), bins["zwdrv"], "core", timeout=60):
+        ctx.count("passenger_graphs", r["closures"])
+        ctx.count("executions", r["exec"])
+        ctx.count("pulls", r["pulls"])
+        for key, what, case in r["bad"]:
+            ctx.violation(key, what, case)
     cov = {
         "states": ctx.counts.get("executions", 0),
         "transitions": ctx.counts.get("pulls", 0),
@@ -288,7 +417,10 @@ def main(ctx):
         "rule": "state = (graph, closure form, start node or input stream) run on the engine until exhaustion or |reachable|+1 results; "
                 "transition = one zw_result_next; distinct = distinct edge-list graph; distinct_outcomes = distinct vectors of reachable-set sizes",
         "bounds": {"graph_families(nodes,max_out_list_length)": parts, "forms": list(FORMS), "streams": [list(s) for s in STREAMS],
-                   "two_slot_stacks": "N=3 graphs, all 9 start pairs"},
+                   "two_slot_stacks": "N=3 graphs, all 9 start pairs",
+                   "passengers": {"values_below_the_node": PASSENGERS, "graphs": "all N=2 graphs with out-lists <= 2", "forms": ["E*", "E+", "()*", "(dup drop)*", "(swap swap)+"]},
+                   "mixed_type_grids": {"value_pool": pool, "ring_sizes": "2..%d" % kmax, "bodies": list(GRID_BODIES), "starts": "every pair of ring values",
+                                        "forms": ["*", "+"], "reachable_set_sizes_seen": gsizes}},
     }
     return ctx.finish("model_checking", cov, [
         "graph reachability in Python is the reference; termination is decided only within the enumerated graphs "
